@@ -24,7 +24,7 @@ template<class G> struct Expect {     // default: Rn
   static M translation_of(const G& r){ return M(r.coeffs()); }
   static M translation(const Case& c, int){ return M(vec_from<S,typename G::DataType>(c.args[0])); }
   static G feedback(const G& r){ return G(r.coeffs()); }
-  static void normalize(G&){}
+  template<class X_> static void normalize(X_&){}
 };
 template<class S_> struct Expect<manif::SO2<S_>> { using G = manif::SO2<S_>; using S = S_; using M = Eigen::Matrix<S,Eigen::Dynamic,Eigen::Dynamic>;
   static M rotation_of(const G& r){ return M(r.rotation()); }
@@ -34,7 +34,7 @@ template<class S_> struct Expect<manif::SO2<S_>> { using G = manif::SO2<S_>; usi
   static M translation_of(const G&){ return M::Zero(2,1); }
   static M translation(const Case&, int){ return M::Zero(2,1); }
   static G feedback(const G& r){ return G(r.angle()); }
-  static void normalize(G& X){ X.normalize(); } };
+  template<class X_> static void normalize(X_& X){ X.normalize(); } };
 template<class S_> struct Expect<manif::SE2<S_>> { using G = manif::SE2<S_>; using S = S_; using M = Eigen::Matrix<S,Eigen::Dynamic,Eigen::Dynamic>;
   static M rotation_of(const G& r){ return M(r.rotation()); }
   static M rotation(const Case& c, int id){ using std::cos; using std::sin; M R(2,2); S re, im;
@@ -43,35 +43,35 @@ template<class S_> struct Expect<manif::SE2<S_>> { using G = manif::SE2<S_>; usi
   static M translation_of(const G& r){ return M(r.translation()); }
   static M translation(const Case& c, int){ M t(2,1); t << s0<S>(c.args[0],0), s0<S>(c.args[0],1); return t; }
   static G feedback(const G& r){ return G(r.x(), r.y(), r.angle()); }
-  static void normalize(G& X){ X.normalize(); } };
+  template<class X_> static void normalize(X_& X){ X.normalize(); } };
 template<class S_> struct Expect<manif::SO3<S_>> { using G = manif::SO3<S_>; using S = S_; using M = Eigen::Matrix<S,Eigen::Dynamic,Eigen::Dynamic>;
   static M rotation_of(const G& r){ return M(r.rotation()); }
   static M rotation(const Case& c, int id){ return rot3_expected<S>(c,id,0); }
   static M translation_of(const G&){ return M::Zero(3,1); }
   static M translation(const Case&, int){ return M::Zero(3,1); }
   static G feedback(const G& r){ return G(r.quat()); }
-  static void normalize(G& X){ X.normalize(); } };
+  template<class X_> static void normalize(X_& X){ X.normalize(); } };
 template<class S_> struct Expect<manif::SE3<S_>> { using G = manif::SE3<S_>; using S = S_; using M = Eigen::Matrix<S,Eigen::Dynamic,Eigen::Dynamic>;
   static M rotation_of(const G& r){ return M(r.rotation()); }
   static M rotation(const Case& c, int id){ return rot3_expected<S>(c,id,1); }
   static M translation_of(const G& r){ return M(r.translation()); }
   static M translation(const Case& c, int){ return M(v3<S>(c.args[0])); }
   static G feedback(const G& r){ return G(r.translation(), r.quat()); }
-  static void normalize(G& X){ X.normalize(); } };
+  template<class X_> static void normalize(X_& X){ X.normalize(); } };
 template<class S_> struct Expect<manif::SE_2_3<S_>> { using G = manif::SE_2_3<S_>; using S = S_; using M = Eigen::Matrix<S,Eigen::Dynamic,Eigen::Dynamic>;
   static M rotation_of(const G& r){ return M(r.rotation()); }
   static M rotation(const Case& c, int id){ return rot3_expected<S>(c,id,1); }
   static M translation_of(const G& r){ M t(6,1); t << r.translation(), r.linearVelocity(); return t; }
   static M translation(const Case& c, int){ M t(6,1); t << v3<S>(c.args[0]), v3<S>(c.args.back()); return t; }
   static G feedback(const G& r){ return G(r.translation(), r.quat(), r.linearVelocity()); }
-  static void normalize(G& X){ X.normalize(); } };
+  template<class X_> static void normalize(X_& X){ X.normalize(); } };
 template<class S_> struct Expect<manif::SGal3<S_>> { using G = manif::SGal3<S_>; using S = S_; using M = Eigen::Matrix<S,Eigen::Dynamic,Eigen::Dynamic>;
   static M rotation_of(const G& r){ return M(r.rotation()); }
   static M rotation(const Case& c, int id){ return rot3_expected<S>(c,id,1); }
   static M translation_of(const G& r){ M t(7,1); t << r.translation(), r.linearVelocity(), r.t(); return t; }
   static M translation(const Case& c, int){ M t(7,1); t << v3<S>(c.args[0]), v3<S>(c.args[c.args.size()-2]), s0<S>(c.args.back()); return t; }
   static G feedback(const G& r){ return G(r.translation(), r.quat(), r.linearVelocity(), r.t()); }
-  static void normalize(G& X){ X.normalize(); } };
+  template<class X_> static void normalize(X_& X){ X.normalize(); } };
 
 template<class G> struct Pred2 {
   using S = typename G::Scalar;
@@ -85,7 +85,9 @@ template<class G> struct Pred2 {
   static T mkT(const std::vector<std::string>& a){ return T(vec_from<S,DT>(a)); }
   static S absS(const S& x){ return x < S(0) ? S(-x) : x; }
   static void set_random(G& X, std::true_type){ X = G::Random(); }
-  static void set_random(G&, std::false_type){}      // Eigen's random generator is only instantiated for the floating-point scalars
+  static void set_random(G&, std::false_type){}
+  template<class M_> static void set_random(M_& X, std::true_type){ X.setRandom(); }
+  template<class M_> static void set_random(M_&, std::false_type){}      // Eigen's random generator is only instantiated for the floating-point scalars
 
   static bool run(const Case& c, Out<S>& o){
     const std::string& op = c.op;
@@ -266,6 +268,43 @@ template<class G> struct Pred2 {
       o.scalar(S(thrown)); o.scalar(S(expect));
       // normalize() makes any non-degenerate data acceptable
       { G X; X.coeffs() = data; int t2=0; try{ Expect<G>::normalize(X); G Y(X.coeffs()); (void)Y; } catch(const manif::invalid_argument&){ t2=1; } o.scalar(S(t2)); o.scalar(S(0)); }
+      return true;
+    }
+    if(op=="P10"){   // C10: X, Y, t — the same operations through an owning object, an Eigen::Map and an Eigen::Map<const>, over a guarded buffer
+      G X=mkG(c.args[0]), Y=mkG(c.args[1]); T t=mkT(c.args[2]);
+      const int R = G::RepSize, D = G::DoF, g1 = 3, g2 = 2;
+      using Buf = Eigen::Matrix<S, Eigen::Dynamic, 1>;
+      auto fresh = [&](){ Buf b(g1+R+g2+R+g1); for(int i=0;i<b.size();i++) b(i)=S(900+i); b.segment(g1,R)=X.coeffs(); b.segment(g1+R+g2,R)=Y.coeffs(); return b; };
+      auto expect = [&](const DG& x){ Buf b = fresh(); b.segment(g1,R)=x; return b; };
+      { Buf b = fresh(); Eigen::Map<G> M(b.data()+g1); Eigen::Map<const G> Mc(b.data()+g1);
+        o.mat(M.inverse().coeffs()); o.mat(X.inverse().coeffs()); o.mat(Mc.inverse().coeffs()); o.mat(X.inverse().coeffs());
+        o.mat(M.log().coeffs()); o.mat(X.log().coeffs()); o.mat(Mc.log().coeffs()); o.mat(X.log().coeffs());
+        o.mat(M.compose(Y).coeffs()); o.mat(X.compose(Y).coeffs()); o.mat(Mc.compose(Y).coeffs()); o.mat(X.compose(Y).coeffs());
+        o.mat(Y.compose(Mc).coeffs()); o.mat(Y.compose(X).coeffs());
+        o.mat(Mc.rplus(t).coeffs()); o.mat(X.rplus(t).coeffs()); o.mat(Mc.rminus(Y).coeffs()); o.mat(X.rminus(Y).coeffs());
+        o.mat(Mc.adj()); o.mat(X.adj()); o.mat(Mc.transform()); o.mat(X.transform()); o.mat((Mc*Y).coeffs()); o.mat((X*Y).coeffs());
+        { J ja, jb, ka, kb; G r1 = Mc.compose(Y,ja,jb), r2 = X.compose(Y,ka,kb); o.mat(ja); o.mat(ka); o.mat(jb); o.mat(kb); }
+        o.mat(b); o.mat(fresh()); }                                                       // reads left the whole buffer (guards included) untouched
+      { Buf b = fresh(); Eigen::Map<G> M(b.data()+g1); M = Y; o.mat(b); o.mat(expect(Y.coeffs())); }
+      { Buf b = fresh(); Eigen::Map<G> M(b.data()+g1); M.setIdentity(); o.mat(b); o.mat(expect(G::Identity().coeffs())); }
+      { Buf b = fresh(); Eigen::Map<G> M(b.data()+g1); M += t; o.mat(b); o.mat(expect(X.rplus(t).coeffs())); }
+      { Buf b = fresh(); Eigen::Map<G> M(b.data()+g1); M *= Y; o.mat(b); o.mat(expect(X.compose(Y).coeffs())); }
+      { Buf b = fresh(); Eigen::Map<G> M(b.data()+g1); M = M.inverse(); o.mat(b); o.mat(expect(X.inverse().coeffs())); }
+      { Buf b = fresh(); Eigen::Map<G> M(b.data()+g1); Eigen::Map<G> M2(b.data()+g1+R+g2); M = M2; o.mat(b); o.mat(expect(Y.coeffs())); }
+      { Buf b = fresh(); Eigen::Map<G> M(b.data()+g1); Eigen::Map<G> M2(b.data()+g1+R+g2); M = std::move(M2); o.mat(b); o.mat(expect(Y.coeffs())); }
+      { Buf b = fresh(); Eigen::Map<G> M(b.data()+g1); Eigen::Map<const G> M2(b.data()+g1+R+g2); M = M2; o.mat(b); o.mat(expect(Y.coeffs())); }
+      { Buf b = fresh(); Eigen::Map<G> M(b.data()+g1); G Z(Y); M = std::move(Z); o.mat(b); o.mat(expect(Y.coeffs())); }
+      { Buf b = fresh(); Eigen::Map<G> M(b.data()+g1); M.coeffs()(R-1) = S(5); DG e = X.coeffs(); e(R-1)=S(5); o.mat(b); o.mat(expect(e)); }
+      { Buf b = fresh(); Eigen::Map<const G> Mc(b.data()+g1); G Z = Mc; G Z2(Mc); o.mat(Z.coeffs()); o.mat(X.coeffs()); o.mat(Z2.coeffs()); o.mat(X.coeffs()); }
+      { Buf b = fresh(); Eigen::Map<G> M(b.data()+g1); Expect<G>::normalize(M); G Z = X; Expect<G>::normalize(Z); o.mat(b); o.mat(expect(Z.coeffs())); }
+      { Buf b = fresh(); Eigen::Map<G> M(b.data()+g1); set_random(M, std::is_floating_point<S>());                      // setRandom: frame only
+        Buf e = fresh(); e.segment(g1,R) = b.segment(g1,R); o.mat(b); o.mat(e); }
+      // tangent views
+      { Eigen::Matrix<S,Eigen::Dynamic,1> tb(g1+D+g2); for(int i=0;i<tb.size();i++) tb(i)=S(700+i); tb.segment(g1,D)=t.coeffs(); auto tb0 = tb;
+        Eigen::Map<const T> Mt(tb.data()+g1); o.mat(Mt.exp().coeffs()); o.mat(t.exp().coeffs()); o.mat(Mt.hat()); o.mat(t.hat()); o.mat(Mt.rjac()); o.mat(t.rjac());
+        o.mat(X.rplus(Mt).coeffs()); o.mat(X.rplus(t).coeffs()); o.mat(tb); o.mat(tb0);
+        Eigen::Map<T> Mw(tb.data()+g1); Mw += t; auto e = tb0; e.segment(g1,D) = (t.coeffs()+t.coeffs()).eval(); o.mat(tb); o.mat(e);
+        Mw.setZero(); e.segment(g1,D).setZero(); o.mat(tb); o.mat(e); Mw = t; e.segment(g1,D) = t.coeffs(); o.mat(tb); o.mat(e); }
       return true;
     }
     return false;
